@@ -55,6 +55,7 @@ type c05Case struct {
 	ExcS  []string  `json:"exclude_string"`
 	Regex []string  `json:"exclusion_file"` // lines of the --exclusion-file; nil = no file given
 	NoEOL bool      `json:"no_eol"`         // the file does not end in a newline
+	Files int       `json:"regex_files,omitempty"` // > 1: the expressions are spread over that many --exclusion-file values (round robin)
 	Trees []c05Tree `json:"trees"`
 }
 
@@ -256,6 +257,9 @@ func c05GenFilters(t *rapid.T, c *c05Case) {
 			c.Regex = append(c.Regex, tpl)
 		}
 		c.NoEOL = rapid.IntRange(0, 3).Draw(t, "regex.noeol") == 0
+		if rapid.IntRange(0, 2).Draw(t, "regex.split") == 0 {
+			c.Files = rapid.IntRange(2, 3).Draw(t, "regex.files")
+		}
 	}
 }
 
@@ -377,15 +381,22 @@ func c05InstallConfig(c c05Case) *config.Config {
 	cfg.ExclusionRegexes = nil // GenerateCrawlConfig appends to it
 	cfg.ExclusionFile = nil
 	if c.Regex != nil {
-		p := filepath.Join(c05Scratch, "c05-exclusions.txt")
-		body := strings.Join(c.Regex, "\n")
-		if !c.NoEOL {
-			body += "\n"
+		k := max(c.Files, 1)
+		parts := make([][]string, k)
+		for i, r := range c.Regex {
+			parts[i%k] = append(parts[i%k], r)
 		}
-		if err := os.WriteFile(p, []byte(body), 0o644); err != nil {
-			panic("harness: cannot write the exclusion file: " + err.Error())
+		for i, part := range parts {
+			p := filepath.Join(c05Scratch, fmt.Sprintf("c05-exclusions-%d.txt", i))
+			body := strings.Join(part, "\n")
+			if !c.NoEOL && len(part) > 0 {
+				body += "\n"
+			}
+			if err := os.WriteFile(p, []byte(body), 0o644); err != nil {
+				panic("harness: cannot write the exclusion file: " + err.Error())
+			}
+			cfg.ExclusionFile = append(cfg.ExclusionFile, p)
 		}
-		cfg.ExclusionFile = []string{p}
 	}
 	if err := config.GenerateCrawlConfig(); err != nil {
 		panic("harness: GenerateCrawlConfig: " + err.Error())
